@@ -285,6 +285,20 @@ def render_events(rng, eid, W):
         views = mk(w)
     evs = []
     common.set_now(inst(W["start"][0] + rng.choice([-10 ** 6, 0, 720, 10 ** 6])))
+    if rng.random() < 0.3:
+        # the view objects have shown the plan once while its dates and names were different; they show what the
+        # plan says NOW
+        shift = _dt.timedelta(minutes=90)
+        keep = [(o.start, o.end, o.name) for o in objs]
+        try:
+            for o in objs:
+                o.start, o.end, o.name = o.start - shift, o.end - shift, "earlier"
+            for v in views.values():
+                v.to_html()
+        except Exception:
+            pass
+        for o, (s0, e0, n0) in zip(objs, keep):
+            o.start, o.end, o.name = s0, e0, n0
     base = {"W": W, "prop": "19", "doc": [], "iframe": True, "jsonok": True, "data": [], "links": [], "linkids": [],
             "progress": True}
     for kind in ("gantt", "network", "dhtmlx"):
@@ -315,7 +329,8 @@ FIELD_SETS = [None, ["id", "name"], ["name", "id", "parent", "predecessors"], ["
               ["ID", "Name", "Estimate"], ["id", "name", "predecessors", "qq", "parent", "resource", "milestone"],
               # names that are members of Task but no stored attributes are unknown fields like any other
               ["id", "wbs", "name", "children"], ["id", "name", "all_children", "clone", "successors"],
-              ["id", "to_dict", "Children", "name", "all_parents", "predecessors"], ["id", "successors", "predecessors"]]
+              ["id", "to_dict", "Children", "name", "all_parents", "predecessors"], ["id", "successors", "predecessors"],
+              ["id", "name", "estimate", "predecessors", "id"]]           # a field named twice is two columns
 THEMES = [None, {"header_color": "92m", "level_colors": ["94m"]}, {"level_colors": []},
           {"header_color": None, "level_colors": [None, "94m", None]}]        # None: that cell is not coloured
 # a print call that is refused (theme without level colours) or one that succeeds, made BEFORE the judged one:
